@@ -47,7 +47,13 @@ func runCase(r *mon.Run, c gen.EdCase) {
 	// case's key is inserted by an eviction and every later verification is a cache hit
 	cv := cache.NewVerifier(cache.NewLRUCache(1))
 	cv.AddPublicKey(otherKey)
-	exp, expErr := ed25519.NewExpandedPublicKey(pk)
+	// the expanded key is built from the caller's own buffer, which the caller overwrites as soon as the constructor has
+	// returned: an expanded key stands for the bytes it was built from
+	kbuf := append(make([]byte, 0, len(pk)+8), pk...)
+	exp, expErr := ed25519.NewExpandedPublicKey(kbuf)
+	for i := range kbuf {
+		kbuf[i] ^= 0xff
+	}
 	if (expErr == nil) != facts.A.OK {
 		r.Violate("NewExpandedPublicKey/decode-mismatch", fmt.Sprintf("NewExpandedPublicKey err=%v but reference says A decodable=%v", expErr, facts.A.OK), c)
 	}
